@@ -345,6 +345,64 @@ func staleReads(c *kit.Ctx, ssa bool) {
 	}
 }
 
+// ---- (b2) the claim is gone, the controller's claim cache has not noticed ----
+
+// deletedBehindCache: a bound claim is deleted and fully finalized (its XR is gone too) while the
+// claim controller's cache of claims is frozen at a state before the deletion. A reconcile served
+// from that cache is still bound by O1, O2 and O4 (at most one XR, created under the recorded name only).
+func deletedBehindCache(c *kit.Ctx, ssa bool) {
+	mode := map[bool]string{false: "csa", true: "ssa"}[ssa]
+	for steps := 1; steps <= 3; steps++ {
+		caseName := fmt.Sprintf("deleted-behind-cache/%s/after%d", mode, steps)
+		if !c.Want(caseName) {
+			continue
+		}
+		w := baseWorld(uint64(c.Seed)*41 + uint64(steps))
+		w.MustSeed("user", claimObj("ns1", "c1"))
+		m := newMonitor()
+		m.actorClaim["claim"] = claimKey("ns1", "c1")
+		w.AddHook(m.hook)
+		fresh := xrk.NewClaimEnv(w, xrdName, ssa)
+		xe := xrk.NewXREnv(w, fresh.XRD)
+		for i := 0; i < steps; i++ {
+			_, _, _ = fresh.Reconcile("ns1", "c1")
+			for _, xr := range w.ListObjs(xrGK) {
+				_, _, _ = xe.Reconcile(sim.Str(xr, "metadata", "name"))
+			}
+		}
+		frozen := w.RV()
+		// the user deletes the claim; the controllers finalize it and its XR
+		if o := w.GetObj(claimKey("ns1", "c1")); o != nil {
+			_ = w.Client("user").Delete(context.Background(), &unstructured.Unstructured{Object: o})
+		}
+		for i := 0; i < 6 && (w.GetObj(claimKey("ns1", "c1")) != nil || len(w.ListObjs(xrGK)) > 0); i++ {
+			_, _, _ = fresh.Reconcile("ns1", "c1")
+			for _, xr := range w.ListObjs(xrGK) {
+				_, _, _ = xe.Reconcile(sim.Str(xr, "metadata", "name"))
+			}
+			w.GCRun(20)
+		}
+		gone := w.GetObj(claimKey("ns1", "c1")) == nil && len(w.ListObjs(xrGK)) == 0
+		lc := w.LaggingClient("claim", func(gk schema.GroupKind) (int64, bool) { return -frozen, gk == claimGK })
+		stale := xrk.NewClaimEnvWithClient(w, xrdName, ssa, lc)
+		from := w.LogLen()
+		for i := 0; i < 2; i++ {
+			_, _, _ = stale.Reconcile("ns1", "c1")
+		}
+		// Not judged: whether an XR comes back for the vanished claim. The client-side syncer of the
+		// unchanged tree re-creates it (under the recorded name) in this situation; the property only
+		// bounds the number of XRs per claim and fixes the name, which O1/O2/O4 keep checking here.
+		if n := len(w.ListObjs(xrGK)); gone && n > 0 {
+			c.Count("deleted_behind_cache_xr_recreated_under_recorded_name_observed_only", 1)
+		}
+		c.Eval(caseName, gone)
+		c.Count("deleted_behind_cache_executions", 1)
+		report(c, m, mode, caseName, func() any {
+			return map[string]any{"mode": mode, "reconciles_before_deletion": steps, "claim_and_xr_were_gone": gone, "trace": shortLog(w, from, 60)}
+		})
+	}
+}
+
 // ---- (c) interleavings ----
 
 func interleavings(c *kit.Ctx, ssa bool, n int) {
@@ -626,6 +684,7 @@ func main() {
 	for _, ssa := range []bool{false, true} {
 		faultEnumeration(c, ssa)
 		staleReads(c, ssa)
+		deletedBehindCache(c, ssa)
 		interleavings(c, ssa, c.N(150, 3000))
 		preemptions(c, ssa)
 		staticRefs(c, ssa)
